@@ -35,7 +35,16 @@ Fixpoint collect_expr (fuel : nat) (e : expr) (t : aftable) {struct fuel} : afta
       | EInfix _ l r => collect_expr f r (collect_expr f l t)
       | ETernary c a b => collect_expr f b (collect_expr f a (collect_expr f c t))
       | EArray l => fold_left (fun acc x => collect_expr f x acc) l t
-      | EHash l => t          (* hash literals are outside this semantics *)
+      | EHash l =>
+          (* as the compiler: the pairs sorted (stably) by the printed key, key then value;
+             a key without a printed form makes the compiler answer "not modelled" *)
+          match opt_map (fun kv : expr * expr =>
+                           match estr 64 (fst kv) with Some s => Some (s, kv) | None => None end) l with
+          | None => t
+          | Some ks =>
+              fold_left (fun acc (kv : expr * expr) => collect_expr f (snd kv) (collect_expr f (fst kv) acc))
+                        (map snd (sort_by (fun a b => str_ltb (fst a) (fst b)) ks)) t
+          end
       | EIndex l i => collect_expr f i (collect_expr f l t)
       | ECall _ args => fold_left (fun acc x => collect_expr f x acc) args t
       | EAssign _ v => collect_expr f v t
